@@ -771,7 +771,8 @@ impl LunarDay {
     let a_month: isize = self.get_month();
     let b_month: isize = target.get_month();
     if a_month != b_month {
-      return a_month.abs() < b_month.abs();
+      // 月份相同时闰月在后
+      return if a_month.abs() != b_month.abs() { a_month.abs() < b_month.abs() } else { a_month > b_month };
     }
     self.day < target.get_day()
   }
@@ -785,7 +786,8 @@ impl LunarDay {
     let a_month: isize = self.get_month();
     let b_month: isize = target.get_month();
     if a_month != b_month {
-      return a_month.abs() >= b_month.abs();
+      // 月份相同时闰月在后
+      return if a_month.abs() != b_month.abs() { a_month.abs() > b_month.abs() } else { a_month < b_month };
     }
     self.day > target.get_day()
   }
